@@ -1136,11 +1136,12 @@ class TransactionBuilder:
     def _build_fake_vkey_witnesses(self) -> NonEmptyOrderedSet[VerificationKeyWitness]:
         witnesses = []
         for i in range(self._witness_count()):
-            # Convert index to 32 bytes and use AND operation to create unique keys
+            # Convert index to 32 bytes and use XOR operation to create unique keys
+            # (XOR with a constant is one-to-one; AND is not: placeholder 256 equalled placeholder 0)
             i_bytes = i.to_bytes(32, "big")
             unique_vkey = VerificationKey.from_primitive(
                 bytes(
-                    x & y
+                    x ^ y
                     for x, y in zip(
                         bytes.fromhex(
                             "5797dc2cc919dfec0bb849551ebdf30d96e5cbe0f33f734a87fe826db30f7ef9"
@@ -1150,7 +1151,7 @@ class TransactionBuilder:
                 )
             )
             unique_sig = bytes(
-                x & y
+                x ^ y
                 for x, y in zip(
                     bytes.fromhex(
                         "577ccb5b487b64e396b0976c6f71558e52e44ad254db7d06dfb79843e5441a5d"
